@@ -62,8 +62,10 @@ fn fill_ix1<const N: usize>(ix: &mut Ix1) -> Cnt {
 
 fn row_total(c: &Cnt, k: usize) -> u8 { c[k][0] + c[k][1] + c[k][2] }
 
-/// `ix` holds exactly the multiset `cnt`, observed at the (symbolic, i.e. every) key `q`
-fn check_ix1(ix: &Ix1, cnt: &Cnt, q: u8) {
+fn row_eq(a: &[u8; D], b: &[u8; D]) -> bool { a[0] == b[0] && a[1] == b[1] && a[2] == b[2] }
+
+/// lookups: `ix` holds exactly the multiset `cnt`, observed at the (symbolic, i.e. every) key `q`
+fn check_ix1_get(ix: &Ix1, cnt: &Cnt, q: u8) {
    let total = row_total(cnt, q as usize);
    match ix.index_get(&(q,)) {
       None => assert!(total == 0),
@@ -74,12 +76,16 @@ fn check_ix1(ix: &Ix1, cnt: &Cnt, q: u8) {
             assert!((v.0 as usize) < D);
             got[v.0 as usize] += 1;
          }
-         assert!(got == cnt[q as usize]);
+         assert!(row_eq(&got, &cnt[q as usize]));
       },
    }
    let nkeys = cnt_keys(cnt);
    assert!(RelIndexRead::len_estimate(ix) == nkeys);
    assert!(RelIndexRead::is_empty(ix) == (nkeys == 0));
+}
+
+/// iteration: every key with at least one value exactly once, with exactly its values
+fn check_ix1_iter(ix: &Ix1, cnt: &Cnt, q: u8) {
    let (mut seen, mut seen_q) = (0usize, 0u8);
    for (k, vals) in ix.iter_all() {
       assert!((k.0 as usize) < D);
@@ -92,9 +98,9 @@ fn check_ix1(ix: &Ix1, cnt: &Cnt, q: u8) {
          assert!((v.0 as usize) < D);
          got[v.0 as usize] += 1;
       }
-      assert!(got == cnt[k.0 as usize] && row_total(cnt, k.0 as usize) > 0);
+      assert!(row_eq(&got, &cnt[k.0 as usize]) && row_total(cnt, k.0 as usize) > 0);
    }
-   assert!(seen == nkeys && seen_q == (total > 0) as u8);
+   assert!(seen == cnt_keys(cnt) && seen_q == (row_total(cnt, q as usize) > 0) as u8);
 }
 
 /// the combined view of `a` and `b` is the multiset union
@@ -110,39 +116,43 @@ fn check_combined_ix1(a: &Ix1, ca: &Cnt, b: &Ix1, cb: &Cnt, q: u8) {
          for v in it {
             got[v.0 as usize] += 1;
          }
-         assert!(got == sum[q as usize]);
+         assert!(row_eq(&got, &sum[q as usize]));
       },
    }
    assert!(comb.len_estimate() == cnt_keys(ca) + cnt_keys(cb));
    assert!(comb.is_empty() == (cnt_keys(ca) + cnt_keys(cb) == 0));
-   let mut got_q = [0u8; D];
-   let (mut seen, mut seen_q) = (0usize, 0u8);
+   let (mut seen, mut seen_q, mut vals_q) = (0usize, 0u8, 0usize);
    for (k, vals) in comb.iter_all() {
       assert!((k.0 as usize) < D);
       seen += 1;
-      let n = vals.count();
+      let n = vals.len();
       assert!(n > 0);
       if k.0 == q {
          seen_q += 1;
-         got_q[0] += n as u8;
+         vals_q += n;
       }
    }
    assert!(seen == cnt_keys(ca) + cnt_keys(cb));
    assert!(seen_q == (row_total(ca, q as usize) > 0) as u8 + (row_total(cb, q as usize) > 0) as u8);
-   assert!(got_q[0] == total);
+   assert!(vals_q == total as usize);
 }
 
-fn ix1_body<const N: usize>(through_to_rel_index: bool) {
+const OBS_GET: u8 = 0;
+const OBS_ITER: u8 = 1;
+const OBS_COMBINED: u8 = 2;
+
+/// `NN`/`ND`/`NT` insert slots for new/delta/total; `OBS` selects what is observed after the
+/// merge (one observation per harness keeps each solver query inside the memory cap).
+fn ix1_body<const NN: usize, const ND: usize, const NT: usize, const OBS: u8>(through_to_rel_index: bool) {
    let (mut new, mut delta, mut total) = (Ix1::default(), Ix1::default(), Ix1::default());
-   let cn = fill_ix1::<N>(&mut new);
-   let cd = fill_ix1::<N>(&mut delta);
-   let ct = fill_ix1::<N>(&mut total);
+   let cn = fill_ix1::<NN>(&mut new);
+   let cd = fill_ix1::<ND>(&mut delta);
+   let ct = fill_ix1::<NT>(&mut total);
    let q = any_d(); // every key
-   check_combined_ix1(&total, &ct, &delta, &cd, q);
    let (dl, tl) = (delta.len(), total.len());
+   let (mut wn, mut wd, mut wt) = (ToRelIndexType(new), ToRelIndexType(delta), ToRelIndexType(total));
    if through_to_rel_index {
       // the route generated code takes for `ascent::rel::ToRelIndexType`
-      let (mut wn, mut wd, mut wt) = (ToRelIndexType(new), ToRelIndexType(delta), ToRelIndexType(total));
       let (mut un, mut ud, mut ut) = ((), (), ());
       RelIndexMerge::init(
          &mut wn.to_rel_index_write(&mut un),
@@ -154,44 +164,86 @@ fn ix1_body<const N: usize>(through_to_rel_index: bool) {
          &mut wd.to_rel_index_write(&mut ud),
          &mut wt.to_rel_index_write(&mut ut),
       );
-      check_ix1(wt.to_rel_index(&ut), &cnt_add(&ct, &cd), q);
-      check_ix1(wd.to_rel_index(&ud), &cn, q);
-      check_ix1(wn.to_rel_index(&un), &[[0u8; D]; D], q);
-      check_combined_ix1(wt.to_rel_index(&ut), &cnt_add(&ct, &cd), wd.to_rel_index(&ud), &cn, q);
-      std::mem::forget((wn, wd, wt));
    } else {
-      RelIndexMerge::merge_delta_to_total_new_to_delta(&mut new, &mut delta, &mut total);
-      check_ix1(&total, &cnt_add(&ct, &cd), q);
-      check_ix1(&delta, &cn, q);
-      check_ix1(&new, &[[0u8; D]; D], q);
-      check_combined_ix1(&total, &cnt_add(&ct, &cd), &delta, &cn, q);
-      std::mem::forget((new, delta, total));
+      RelIndexMerge::merge_delta_to_total_new_to_delta(&mut wn.0, &mut wd.0, &mut wt.0);
    }
-   // vacuity witnesses: both directions of the size-based swap, and of the per-key vector swap
-   kani::cover!(dl > tl);
-   kani::cover!(dl < tl);
-   kani::cover!(cd[0][0] + cd[0][1] + cd[0][2] > ct[0][0] + ct[0][1] + ct[0][2] && ct[0][0] + ct[0][1] + ct[0][2] > 0);
-   kani::cover!(cd[0][0] + cd[0][1] + cd[0][2] < ct[0][0] + ct[0][1] + ct[0][2] && cd[0][0] + cd[0][1] + cd[0][2] > 0);
+   let (un, ud, ut) = ((), (), ());
+   let (new, delta, total): (&Ix1, &Ix1, &Ix1) = if through_to_rel_index {
+      (wn.to_rel_index(&un), wd.to_rel_index(&ud), wt.to_rel_index(&ut))
+   } else {
+      (&wn.0, &wd.0, &wt.0)
+   };
+   let ct2 = cnt_add(&ct, &cd);
+   if OBS == OBS_GET {
+      check_ix1_get(total, &ct2, q);
+      check_ix1_get(delta, &cn, q);
+      check_ix1_get(new, &[[0u8; D]; D], q);
+   }
+   if OBS == OBS_ITER {
+      check_ix1_iter(total, &ct2, q);
+      check_ix1_iter(delta, &cn, q);
+      check_ix1_iter(new, &[[0u8; D]; D], q);
+   }
+   if OBS == OBS_COMBINED {
+      check_combined_ix1(total, &ct2, delta, &cn, q);
+   }
+   // vacuity witnesses: both outcomes of the size-based swap and of the per-key vector swap
+   // that the instantiation can reach
+   if ND > NT {
+      kani::cover!(dl > tl);
+      kani::cover!(row_total(&cd, 0) > row_total(&ct, 0) && row_total(&ct, 0) > 0);
+   }
+   if ND < NT {
+      kani::cover!(dl < tl);
+      kani::cover!(row_total(&cd, 0) < row_total(&ct, 0) && row_total(&cd, 0) > 0);
+   }
+   if ND == NT {
+      kani::cover!(dl > tl);
+      kani::cover!(dl < tl);
+   }
    kani::cover!(true);
+   std::mem::forget((wn, wd, wt));
 }
 
+macro_rules! ix1_harness {
+   ($name:ident, $nn:literal, $nd:literal, $nt:literal, $obs:ident, $route:literal, $unwind:literal) => {
+      #[kani::proof]
+      #[kani::unwind($unwind)]
+      #[kani::stub(std::time::Instant::now, crate::stubs::instant_now)]
+      #[kani::stub(std::time::Instant::elapsed, crate::stubs::instant_elapsed)]
+      #[kani::stub(std::mem::swap, crate::stubs::mem_swap)]
+      pub fn $name() { ix1_body::<$nn, $nd, $nt, $obs>($route) }
+   };
+}
+
+// quick: at most 3 values under one key after the merge (unwind 5 covers every loop);
+// total' = total + delta is checked with `new` empty, delta' = new / new' = {} separately
+ix1_harness!(rel_index_type1_merge_get_d2_t1, 0, 2, 1, OBS_GET, false, 5);
+ix1_harness!(rel_index_type1_merge_get_d1_t2, 0, 1, 2, OBS_GET, false, 5);
+ix1_harness!(rel_index_type1_merge_iter_d2_t1, 0, 2, 1, OBS_ITER, false, 5);
+ix1_harness!(rel_index_type1_merge_iter_d1_t2, 0, 1, 2, OBS_ITER, false, 5);
+ix1_harness!(rel_index_type1_merge_new_to_delta_get, 2, 1, 0, OBS_GET, false, 5);
+ix1_harness!(rel_index_type1_merge_new_to_delta_iter, 2, 1, 0, OBS_ITER, false, 5);
+ix1_harness!(to_rel_index_type_merge_get_d2_t1, 0, 2, 1, OBS_GET, true, 5);
+ix1_harness!(to_rel_index_type_merge_new_to_delta_get, 2, 1, 0, OBS_GET, true, 5);
+// thorough
+ix1_harness!(rel_index_type1_merge_combined_d2_t1_wide, 1, 2, 1, OBS_COMBINED, false, 5);
+ix1_harness!(rel_index_type1_merge_get_n1_d2_t1_wide, 1, 2, 1, OBS_GET, false, 5);
+ix1_harness!(rel_index_type1_merge_get_d2_t2_wide, 0, 2, 2, OBS_GET, false, 6);
+
+/// the combined view before any merge (tables filled by inserts only)
 #[kani::proof]
 #[kani::unwind(6)]
-#[kani::stub(std::time::Instant::now, crate::stubs::instant_now)]
-#[kani::stub(std::time::Instant::elapsed, crate::stubs::instant_elapsed)]
-pub fn rel_index_type1_merge() { ix1_body::<2>(false) }
-
-#[kani::proof]
-#[kani::unwind(6)]
-#[kani::stub(std::time::Instant::now, crate::stubs::instant_now)]
-#[kani::stub(std::time::Instant::elapsed, crate::stubs::instant_elapsed)]
-pub fn to_rel_index_type_merge() { ix1_body::<2>(true) }
-
-#[kani::proof]
-#[kani::unwind(8)]
-#[kani::stub(std::time::Instant::now, crate::stubs::instant_now)]
-#[kani::stub(std::time::Instant::elapsed, crate::stubs::instant_elapsed)]
-pub fn rel_index_type1_merge_wide() { ix1_body::<3>(false) }
+pub fn rel_index_type1_combined() {
+   let (mut delta, mut total) = (Ix1::default(), Ix1::default());
+   let cd = fill_ix1::<2>(&mut delta);
+   let ct = fill_ix1::<2>(&mut total);
+   let q = any_d();
+   check_combined_ix1(&total, &ct, &delta, &cd, q);
+   kani::cover!(row_total(&cd, q as usize) > 0 && row_total(&ct, q as usize) > 0);
+   kani::cover!(true);
+   std::mem::forget((total, delta));
+}
 
 // ------------------------------------------------------------------ RelFullIndexType<(u8,u8),()>
 
@@ -321,10 +373,12 @@ fn full2_body<const N: usize>() {
 #[kani::unwind(8)]
 #[kani::stub(std::time::Instant::now, crate::stubs::instant_now)]
 #[kani::stub(std::time::Instant::elapsed, crate::stubs::instant_elapsed)]
+#[kani::stub(std::mem::swap, crate::stubs::mem_swap)]
 pub fn full_index_unit_merge() { full2_body::<2>() }
 
 #[kani::proof]
 #[kani::unwind(8)]
 #[kani::stub(std::time::Instant::now, crate::stubs::instant_now)]
 #[kani::stub(std::time::Instant::elapsed, crate::stubs::instant_elapsed)]
+#[kani::stub(std::mem::swap, crate::stubs::mem_swap)]
 pub fn full_index_unit_merge_wide() { full2_body::<3>() }
